@@ -10,8 +10,13 @@
 (*     [kind |-> "msg", cls, v, key]  a message value of a pinned class     *)
 (*     [kind |-> "obf", key, data]    an obfuscation vector                 *)
 (*     [kind |-> "anchor", cls, v, bytes]  a hand-written byte string       *)
+(*     [kind |-> "giant", cls, rest, rep, elem, K]  a message whose array    *)
+(*          field rep holds K copies of elem (body of tens of MiB)          *)
+(*     [kind |-> "conn", obf, msgs]   messages sent concurrently on one      *)
+(*          connection (theorems about StreamIntact)                        *)
 (*  For msg / obf cases Eval also prints the prescribed bytes              *)
-(*     <<"P", cid, frame-or-inner-body>>,  <<"O", cid, obfuscated>>         *)
+(*     <<"P", cid, frame-or-inner-body>>,  <<"O", cid, obfuscated>>,        *)
+(*     <<"G", cid, <<pre, unit, post>>>>  (the pieces of a giant body)      *)
 (*  (the byte sequence as a JSON string, so that a case is one short line)  *)
 (*  which the harness feeds to the real parser.                            *)
 (***************************************************************************)
@@ -125,9 +130,41 @@ EvalDoc ==      \* the worked example of SOULSEEK.rst, and the 32-rotation cycle
             /\ \A k \in BoundKeys : KeySched(k, 32, <<>>)[32] = k,
             TRUE)
 
+\* a giant value: the decomposition into pieces is checked on the instance with two copies
+EvalGiant ==
+  /\ stage = "todo" /\ Case.kind = "giant"
+  /\ \E m \in {Messages[Case.cls]} :
+       \E p \in {RepPieces(m, Case.rest, Case.rep, Case.elem)},
+          v2 \in {Case.rest @@ (Case.rep :> <<Case.elem, Case.elem>>)} :
+         \E b2 \in {Body(m, v2)} :
+           /\ PrintT(<<"G", cid, ToJson(<<p.pre, p.unit, p.post>>)>>)
+           /\ Finish(MsgDom(m, v2) /\ Case.K >= 1 /\ Case.rep \notin DOMAIN Case.rest,
+                     /\ b2 = p.pre \o U32(2) \o p.unit \o p.unit \o p.post
+                     /\ ParseBody(m, b2).v = v2,
+                     Len(p.unit) > 0 /\ RepLen(p, 2) = Len(b2) /\ RepLen(p, Case.K) > RepLen(p, 2) - 1,
+                     TRUE, TRUE)
+
+\* concurrently sent messages: every order of whole frames is intact, a frame inside a frame is not
+EvalConn ==
+  /\ stage = "todo" /\ Case.kind = "conn"
+  /\ \E frames \in {[i \in 1..Len(Case.msgs) |-> Frame(Messages[Case.msgs[i].cls], Case.msgs[i].v)]} :
+       \E cat \in {Flat(frames)}, rev \in {Flat([i \in 1..Len(frames) |-> frames[Len(frames) + 1 - i]])} :
+         Finish(\A i \in 1..Len(Case.msgs) : MsgDom(Messages[Case.msgs[i].cls], Case.msgs[i].v),
+                TRUE,
+                /\ StreamIntact(cat, frames, FALSE) /\ StreamIntact(rev, frames, FALSE)
+                /\ Len(frames) >= 2 =>
+                     LET A == frames[1]  B == frames[2]  k == (Len(A) + 1) \div 2
+                         mixed == SubSeq(A, 1, k) \o B \o SubSeq(A, k + 1, Len(A))
+                                    \o Flat([i \in 1..(Len(frames) - 2) |-> frames[i + 2]])
+                     IN Len(B) > 0 /\ k < Len(A) => ~StreamIntact(mixed, frames, FALSE)
+                /\ ~StreamIntact(SubSeq(cat, 1, Len(cat) - 1), frames, FALSE),
+                LET ob == Flat([i \in 1..Len(frames) |-> Obf(Case.key, frames[i])])
+                IN StreamIntact(ob, frames, TRUE) /\ ~StreamIntact(ob, frames, FALSE),
+                TRUE)
+
 Stay == stage = "done" /\ UNCHANGED vars
 
-Next == EvalMsg \/ EvalObf \/ EvalAnchor \/ EvalPrim \/ EvalArr \/ EvalDoc \/ Stay
+Next == EvalMsg \/ EvalObf \/ EvalAnchor \/ EvalGiant \/ EvalConn \/ EvalPrim \/ EvalArr \/ EvalDoc \/ Stay
 Spec == Init /\ [][Next]_vars
 
 \* ---- the theorems ----------------------------------------------------------
